@@ -23,7 +23,12 @@ theorem quote_safe (s : Str) : ∀ x ∈ quote s, tok x = true ∧
   intro x hx
   have h := quote_tok s x hx
   have p := tok_props x h
-  have r := urlCh_range x (urlCh_of_tok x h)
+  have r : 37 ≤ x.toNat ∧ x.toNat ≤ 126 := by
+    have h' := h
+    simp only [tok, Bool.or_eq_true, beq_iff_eq] at h'
+    rcases h' with ((((h' | h') | h') | h') | h') | h'
+    · have := alnum_range x h'; omega
+    all_goals (subst h'; decide)
   exact ⟨h, p.2.2.2.2.1, p.2.2.2.1, p.1, p.2.1, p.2.2.2.2.2.2.1, p.2.2.2.2.2.2.2, p.2.2.2.2.2.1, p.2.2.1,
     class_ne tok x _ h (by decide), class_ne tok x _ h (by decide), class_ne tok x _ h (by decide), r.1, r.2⟩
 
@@ -38,19 +43,38 @@ theorem unquote_quote (s : Str) : unquote (quote s) = s := Amqp.Uri.unquote_quot
 theorem patch_scheme (tls : Bool) (r : Str) : patchUri (amqpPrefix tls ++ r) = httpPrefix tls ++ r :=
   patchUri_amqp tls r
 
-/-- **Main theorem.**  For every URI rendered from components — arbitrary Unicode username,
-    password and virtual host (percent-encoded), a host that is a name / IPv4 literal / bracketed
-    IPv6 literal or is omitted, a port in 1..65535 or omitted, heartbeat/timeout options in any
-    order and multiplicity, either scheme, and *every subset of omitted components* — the
-    connection parameters are exactly what the URI states: credentials and vhost equal the original
-    texts, the host is the given one lower-cased without brackets, the port is the given one,
-    `amqps` selects TLS, heartbeat and timeout are the integers of the first occurrence, and
-    everything absent (or empty) takes its documented default (guest/guest, localhost, 5672 or 5671
-    with TLS, '/', 60, 10). -/
-theorem parse_render (v6ok : Str → Bool) (c : Components) (hw : c.WF v6ok) :
-    connectionParams v6ok (render c) = .ok (expected c) := by
+/-- what a URI whose userinfo/path are the *written* (encoded) texts of `c` states: credentials and
+    vhost are the percent-decoded texts, defaults for everything absent or empty -/
+def expectedRaw (c : Components) : Params where
+  hostname := match c.host with
+    | none => localhost
+    | some h => h.text.map Char.toLower
+  username := decodedOr c.user guest
+  password := decodedOr c.pass guest
+  port := match c.port with
+    | none => if c.tls then 5671 else 5672
+    | some n => n
+  virtualHost := match c.vhost with
+    | none => ['/']
+    | some e => if unquote e = [] then ['/'] else unquote e
+  heartbeat := .int (match firstHb c.opts with | some n => n | none => 60)
+  timeout := .int (match firstTmo c.opts with | some n => n | none => 10)
+  ssl := c.tls
+
+/-- **Main theorem, any encoding.**  Take any URI `scheme://[user[:password]@][host][:port][/vhost][?options]`
+    whose username, password and vhost are written in *any* form the URI grammar allows inside the
+    component (unreserved characters, arbitrary `%XX` escapes in either case, raw sub-delims
+    `! $ & ' ( ) * + , ; =`, also ':' in the password and ':' '@' in the vhost), host a name / IPv4 /
+    bracketed IPv6 literal or omitted, port 1..65535 or omitted, heartbeat/timeout options in any
+    order and multiplicity, either scheme, every subset of components omitted.  Then the connection
+    parameters are exactly: the percent-decoded username, password and vhost; the host lower-cased
+    without brackets; the port; `ssl` iff the scheme is amqps; heartbeat/timeout the integer of the
+    first occurrence; and the documented default for everything absent or empty.
+    (On the unfixed tree — `urlparse` instead of `urlsplit` — this fails: `amqp://h/a;b` gives vhost `a`.) -/
+theorem parse_encoded (v6ok : Str → Bool) (c : Components) (hw : c.WF v6ok) (he : c.EncOk) :
+    connectionParams v6ok (renderRaw c) = .ok (expectedRaw c) := by
   unfold connectionParams
-  rw [urlparse_render v6ok c hw]
+  rw [urlparse_render v6ok c hw he]
   have hhb := optValue_query Gen.Uri.pHeartbeat rfl c.opts
   have htm := optValue_query Gen.Uri.pTimeout rfl c.opts
   simp only [Gen.Uri.pHeartbeat, Gen.Uri.pTimeout] at hhb htm
@@ -60,8 +84,8 @@ theorem parse_render (v6ok : Str → Bool) (c : Components) (hw : c.WF v6ok) :
   congr 1
   -- field by field
   have hhost : Gen.Uri.pHostname unquote (httpScheme c.tls) (c.host.map fun h => h.text.map Char.toLower)
-      (uiUser c.user c.pass) (c.pass.map quote) c.port (renderPath c.vhost) = (expected c).hostname := by
-    simp only [Gen.Uri.pHostname, expected]
+      (uiUser c.user c.pass) c.pass c.port (renderPath c.vhost) = (expectedRaw c).hostname := by
+    simp only [Gen.Uri.pHostname, expectedRaw]
     cases hh : c.host with
     | none => rfl
     | some h =>
@@ -70,22 +94,20 @@ theorem parse_render (v6ok : Str → Bool) (c : Components) (hw : c.WF v6ok) :
         cases h <;> simp only [Host.WF] at hwf <;> simp [Host.text, hwf.1]
       simp [strOr, hne]
   have huser : Gen.Uri.pUsername unquote (httpScheme c.tls) (c.host.map fun h => h.text.map Char.toLower)
-      (uiUser c.user c.pass) (c.pass.map quote) c.port (renderPath c.vhost) = (expected c).username := by
-    simp only [Gen.Uri.pUsername, expected]
-    cases hu : c.user <;> cases hp : c.pass <;> simp only [uiUser, Option.getD_none, Option.getD_some]
-    · exact cred_none
-    · exact cred_some []
-    · exact cred_some _
-    · exact cred_some _
+      (uiUser c.user c.pass) c.pass c.port (renderPath c.vhost) = (expectedRaw c).username := by
+    simp only [Gen.Uri.pUsername, expectedRaw]
+    cases hu : c.user <;> cases hp : c.pass
+    · exact cred_eq none
+    · exact cred_eq (some [])
+    · exact cred_eq (some _)
+    · exact cred_eq (some _)
   have hpass : Gen.Uri.pPassword unquote (httpScheme c.tls) (c.host.map fun h => h.text.map Char.toLower)
-      (uiUser c.user c.pass) (c.pass.map quote) c.port (renderPath c.vhost) = (expected c).password := by
-    simp only [Gen.Uri.pPassword, expected]
-    cases hp : c.pass
-    · exact cred_none
-    · exact cred_some _
+      (uiUser c.user c.pass) c.pass c.port (renderPath c.vhost) = (expectedRaw c).password := by
+    simp only [Gen.Uri.pPassword, expectedRaw]
+    exact cred_eq c.pass
   have hport : Gen.Uri.pPort unquote (httpScheme c.tls) (c.host.map fun h => h.text.map Char.toLower)
-      (uiUser c.user c.pass) (c.pass.map quote) c.port (renderPath c.vhost) = (expected c).port := by
-    simp only [Gen.Uri.pPort, expected]
+      (uiUser c.user c.pass) c.pass c.port (renderPath c.vhost) = (expectedRaw c).port := by
+    simp only [Gen.Uri.pPort, expectedRaw]
     cases hp : c.port with
     | none => cases c.tls <;> decide
     | some n =>
@@ -93,19 +115,36 @@ theorem parse_render (v6ok : Str → Bool) (c : Components) (hw : c.WF v6ok) :
       simp only [natOr]
       rw [if_neg (by omega)]
   have hvh : Gen.Uri.pVirtualHost unquote (httpScheme c.tls) (c.host.map fun h => h.text.map Char.toLower)
-      (uiUser c.user c.pass) (c.pass.map quote) c.port (renderPath c.vhost) = (expected c).virtualHost := by
-    simp only [Gen.Uri.pVirtualHost, expected]
+      (uiUser c.user c.pass) c.pass c.port (renderPath c.vhost) = (expectedRaw c).virtualHost := by
+    simp only [Gen.Uri.pVirtualHost, expectedRaw]
     cases hv : c.vhost with
     | none => decide
-    | some v =>
-      simp only [renderPath, List.drop_succ_cons, List.drop_zero, Amqp.Uri.unquote_quote, strOrS, orDefault]
+    | some v => simp only [renderPath, List.drop_succ_cons, List.drop_zero, strOrS]
   have hssl : Gen.Uri.pSsl unquote (httpScheme c.tls) (c.host.map fun h => h.text.map Char.toLower)
-      (uiUser c.user c.pass) (c.pass.map quote) c.port (renderPath c.vhost) = (expected c).ssl := by
-    simp only [Gen.Uri.pSsl, expected]
+      (uiUser c.user c.pass) c.pass c.port (renderPath c.vhost) = (expectedRaw c).ssl := by
+    simp only [Gen.Uri.pSsl, expectedRaw]
     cases c.tls <;> decide
   rw [hhost, huser, hpass, hport, hvh, hssl]
-  simp only [expected]
+  simp only [expectedRaw]
   cases firstHb c.opts <;> cases firstTmo c.opts <;> rfl
+
+/-- **Main theorem, canonical encoding.**  For every URI rendered from plain components — arbitrary
+    Unicode username, password and virtual host percent-encoded with `quote(·, safe='')`, and hosts,
+    ports, options, schemes and omissions as in `parse_encoded` — the parameters are exactly the
+    original texts (and host, port, TLS flag, integers, defaults as stated by `expected`):
+    guest/guest, localhost, 5672 or 5671 with TLS, '/', 60, 10 for whatever is absent. -/
+theorem parse_render (v6ok : Str → Bool) (c : Components) (hw : c.WF v6ok) :
+    connectionParams v6ok (render c) = .ok (expected c) := by
+  have hw' : c.encode.WF v6ok := ⟨hw.host, hw.port⟩
+  have := parse_encoded v6ok c.encode hw' (encode_ok c)
+  rw [render, this]
+  congr 1
+  simp only [expectedRaw, expected, Components.encode, decodedOr_quote]
+  congr 1
+  cases hv : c.vhost with
+  | none => rfl
+  | some v =>
+    simp only [Option.map_some, Amqp.Uri.unquote_quote, orDefault]
 
 /-- corollary: a non-empty username, password and virtual host reach the parameters unchanged,
     whatever characters they contain -/
@@ -135,8 +174,10 @@ theorem all_defaults (v6ok : Str → Bool) (tls : Bool) :
 theorem port_out_of_range (v6ok : Str → Bool) (c : Components) (hwh : ∀ h, c.host = some h → h.WF v6ok)
     (n : Nat) (hp : c.port = some n) (hn : 65535 < n) :
     connectionParams v6ok (render c) = .error .valueError := by
-  unfold connectionParams
-  rw [urlparse_render' v6ok c hwh, hp]
+  unfold connectionParams render
+  rw [urlparse_render' v6ok c.encode hwh (encode_ok c)]
+  have : c.encode.port = some n := hp
+  rw [this]
   simp only [Option.map_some, portOf_toDec_big n hn]
   rfl
 
@@ -146,13 +187,15 @@ theorem port_zero_is_default (v6ok : Str → Bool) (c : Components) (hwh : ∀ h
     (hp : c.port = some 0) :
     ∃ r, connectionParams v6ok (render c) = .ok r ∧ r.port = if c.tls then 5671 else 5672 := by
   have hw : ({ c with port := none } : Components).WF v6ok := ⟨hwh, fun _ h => by cases h⟩
-  have hport : portOf (c.port.map toDec) = .ok (some 0) := by rw [hp]; exact portOf_toDec 0 (by omega)
   have hmain := parse_render v6ok { c with port := none } hw
-  unfold connectionParams at hmain ⊢
-  rw [urlparse_render' v6ok c hwh, hport]
-  rw [urlparse_render' v6ok { c with port := none } hw.host] at hmain
-  simp only [Option.map_none, portOf] at hmain
-  simp only [bind, Except.bind, pure, Except.pure] at hmain ⊢
+  have hport : portOf (c.encode.port.map toDec) = .ok (some 0) := by
+    have : c.encode.port = some 0 := hp
+    rw [this]; exact portOf_toDec 0 (by omega)
+  unfold connectionParams render at hmain ⊢
+  rw [urlparse_render' v6ok c.encode hwh (encode_ok c), hport]
+  rw [urlparse_render' v6ok ({ c with port := none } : Components).encode hw.host (encode_ok _)] at hmain
+  simp only [Components.encode, Option.map_none, portOf] at hmain
+  simp only [bind, Except.bind, pure, Except.pure, Components.encode] at hmain ⊢
   cases hb : optValue Gen.Uri.pHeartbeat (parseQsl (queryText c.opts)) with
   | error e => simp [hb] at hmain
   | ok hbv =>
@@ -196,9 +239,12 @@ example : connectionParams (fun _ => true) "amqp://h:70000/".toList = .error .va
 example : connectionParams (fun _ => true) "amqp://h/?heartbeat=abc".toList = .error .valueError := by decide
 example : connectionParams (fun _ => false) "amqp://[::g]/".toList = .error .valueError := by decide
 example : connectionParams (fun _ => true) "amqp://[::1/".toList = .error .valueError := by decide
-/-- `;params` are cut from the vhost because the scheme was patched to http (as the code is) -/
-example : (connectionParams (fun _ => true) "amqp://h/v;p".toList).toOption.map (·.virtualHost) = some ['v'] := by
+/-- a raw ';' stays in the vhost (the fixed code calls `urlsplit`; `urlparse` used to cut `;p` off) -/
+example : (connectionParams (fun _ => true) "amqp://h/v;p".toList).toOption.map (·.virtualHost) = some ['v', ';', 'p'] := by
   decide
+/-- non-canonical encodings: lower-case escapes, escaped unreserved characters, raw sub-delims -/
+example : connectionParams (fun _ => true) "amqp://u%73er;x:p%3a:w+d@h/a;b@c:%2f".toList =
+    .ok ⟨['h'], "user;x".toList, "p::w+d".toList, 5672, "a;b@c:/".toList, .int 60, .int 10, false⟩ := by decide
 /-- invalid UTF-8 escapes decode to U+FFFD like CPython's `errors='replace'` -/
 example : unquote "%E2%82%AC%FF%E2%82".toList = ['€', Char.ofNat 0xFFFD, Char.ofNat 0xFFFD] := by decide
 
